@@ -226,6 +226,31 @@ pub fn run_sinks(a: &Args) {
     for p in [big_recipe(200, 0), json!({"id": 1, "fs": 0, "opcode": 0, "rcode": 0, "opt": [], "qd": [], "an": [], "ns": [], "ar": []})] {
         sink_events(&mut out, &mut st, &p, true).unwrap();
     }
+    // packets with exactly ONE entry whose own names share a suffix (owner and RDATA name, two RDATA names): the
+    // smallest messages in which compression has something to do
+    {
+        let name = |s: &str| -> Value { json!(s.split('.').map(|l| l.as_bytes().to_vec()).collect::<Vec<_>>()) };
+        let rec = |sec: &str, t: u64, rd: Value| -> Value {
+            let mut p = json!({"id": 2, "fs": 32768, "opcode": 0, "rcode": 0, "opt": [], "qd": [], "an": [], "ns": [], "ar": []});
+            p[sec] = json!([{"name": name("_http._tcp.local"), "type": t, "class": 1, "cf": false, "ttl": [0, 0, 0, 120], "rd": rd}]);
+            p
+        };
+        let singles = vec![
+            rec("an", 12, json!([name("printer._http._tcp.local")])),
+            rec("ns", 2, json!([name("ns._tcp.local")])),
+            rec("ar", 15, json!([[0, 10], name("mail._http._tcp.local")])),
+            rec("an", 33, json!([[0, 0], [0, 0], [0, 80], name("host.local")])),
+            rec("an", 6, json!([name("ns.example.org"), name("admin.example.org"), [0, 0, 0, 1], [0, 0, 0, 2], [0, 0, 0, 3], [0, 0, 0, 4], [0, 0, 0, 5]])),
+            rec("an", 14, json!([name("a.example.org"), name("b.example.org")])),
+            json!({"id": 3, "fs": 0, "opcode": 0, "rcode": 0, "opt": [], "qd": [{"name": name("_http._tcp.local"), "qtype": 12, "qclass": 1, "unicast": false}], "an": [], "ns": [], "ar": []}),
+        ];
+        for p in singles {
+            if let Err(why) = sink_events(&mut out, &mut st, &p, true) {
+                eprintln!("construct failed: {why}");
+                std::process::exit(2);
+            }
+        }
+    }
     out.finish(st.into_json("sinks",
         "packets of Gen_Packet x {plain, compressed} x writers: growable Cursor<Vec> at offsets 0/2/7 over storage with no / shorter / longer pre-existing content; fixed &mut [u8] and Cursor<&mut [u8]> (offset 0 and 3) of every capacity 0..len+2 (every 4th packet; boundary capacities otherwise); non-trivial = any",
         false));
